@@ -190,6 +190,20 @@ static void blk_pbkdf2(void) {
 		vh_sample("{\"block\":\"pbkdf2\",\"passlen\":%zu,\"saltlen\":%zu,\"iter\":%d,\"outlen\":%zu}", PL[p], SL[s], IT[it], OL[o]);
 	}
 }
+/* outputs long enough for the block index of the KDFs to pass 255 / 256 (one-octet counters, T(256) = T(0) mistakes) */
+static void blk_long_outputs(void) {
+	if (!vh_block_begin("long-outputs")) return; static uint8_t out[20100], exp[20100];
+	static const size_t OL[] = { 8128, 8159, 8160, 8161, 8191, 8192, 8193, 8224, 16384, 20000 };
+	for (int o = 0; o < 10; o++) for (int it = 1; it <= 2; it++) { if (!vh_next()) continue; memset(out, 0x5A, sizeof out); int r = sm3_pbkdf2((const char *)MSG[0] + 33, 8, MSG[1] + 77, 8, (size_t)it, OL[o], out); ref_pbkdf2("SM3", (const char *)MSG[0] + 33, 8, MSG[1] + 77, 8, it, OL[o], exp); vh_eval(vh_mix(880000 + o * 4 + it));
+		if (r != 1) vh_viol("C03:sm3_pbkdf2:refused", "\"outlen\":%zu,\"iter\":%d,\"ret\":%d", OL[o], it, r); else if (memcmp(out, exp, OL[o]) || out[OL[o]] != 0x5A) { size_t fb = 0; while (fb < OL[o] && out[fb] == exp[fb]) fb++; vh_viol("C03:sm3_pbkdf2:long-output", "\"outlen\":%zu,\"iter\":%d,\"first_bad_byte\":%zu", OL[o], it, fb); } }
+	for (int o = 0; o < 10; o++) { if (!vh_next()) continue; memset(out, 0x5A, sizeof out); if (!ref_x963kdf_sm3(MSG[0] + 11, 33, OL[o], exp)) vh_harness_error("ref x963 failed"); int r = sm2_kdf(MSG[0] + 11, 33, OL[o], out); vh_eval(vh_mix(881000 + o));
+		if (r != 1 || memcmp(out, exp, OL[o]) || out[OL[o]] != 0x5A) { size_t fb = 0; while (fb < OL[o] && out[fb] == exp[fb]) fb++; vh_viol("C03:sm2_kdf:long-output", "\"outlen\":%zu,\"ret\":%d,\"first_bad_byte\":%zu", OL[o], r, fb); }
+		SM3_KDF_CTX kc; memset(out, 0x5A, sizeof out); sm3_kdf_init(&kc, OL[o]); sm3_kdf_update(&kc, MSG[0] + 11, 20); sm3_kdf_update(&kc, MSG[0] + 31, 13); sm3_kdf_finish(&kc, out); vh_eval(vh_mix(882000 + o)); if (memcmp(out, exp, OL[o]) || out[OL[o]] != 0x5A) { size_t fb = 0; while (fb < OL[o] && out[fb] == exp[fb]) fb++; vh_viol("C03:sm3_kdf:long-output", "\"outlen\":%zu,\"first_bad_byte\":%zu", OL[o], fb); } }
+	/* HKDF-Expand at its limit L = 255 * HashLen (and one short of it); one more must be refused */
+	for (size_t a = 0; a < NALG; a++) { const alg_t *A = &ALG[a]; if (!A->named) continue; for (int d = -1; d <= 1; d++) { if (!vh_next()) continue; size_t LL = 255 * A->dlen + d; memset(out, 0xA5, sizeof out); int r = hkdf_expand(A->get(), MSG[1] + 3, A->dlen, MSG[0] + 7, 10, LL, out); vh_eval(vh_mix(883000 + a * 4 + d + 1)); char k[128];
+		if (d <= 0) { if (!ref_hkdf_expand(A->oname, MSG[1] + 3, A->dlen, MSG[0] + 7, 10, LL, exp)) vh_harness_error("ref hkdf expand failed"); if (r != 1 || memcmp(out, exp, LL) || out[LL] != 0xA5) { snprintf(k, sizeof k, "C03:hkdf_expand:%s:limit", A->name); vh_viol(k, "\"L\":%zu,\"ret\":%d", LL, r); } }
+		else if (r == 1) { snprintf(k, sizeof k, "C03:hkdf_expand:%s:beyond-limit-accepted", A->name); vh_viol(k, "\"L\":%zu", LL); } } }
+}
 static void blk_kdf(void) {
 	if (!vh_block_begin("sm3kdf")) return;
 	static const size_t ZL[] = { 1, 32, 63, 64, 65, 100 };
@@ -236,6 +250,6 @@ static void selftest(void) {
 }
 int main(int argc, char **argv) {
 	vh_init(argc, argv); if (!freopen("/dev/null", "w", stderr)) {} fill(); selftest();
-	blk_oneshot(); blk_hmac(); blk_hkdf(); blk_pbkdf2(); blk_kdf(); blk_automaton(); blk_cuts3(); blk_long();
+	blk_oneshot(); blk_hmac(); blk_hkdf(); blk_pbkdf2(); blk_long_outputs(); blk_kdf(); blk_automaton(); blk_cuts3(); blk_long();
 	return vh_finish();
 }
